@@ -187,6 +187,20 @@ def _api(call, ds):
             bad.append(f"ucat map/area mismatch: {m} {are} expected {exp_m} {exp_a}")
         if sum(a_ for a_ in are if a_ > 0) != sum(1 for x in exp_m if x > 0):
             bad.append("areas do not add up to the number of labelled cells")
+        # metric units on 100 m x 50 m cells: the area is the cell count times 5000 m2 / 0.5 ha / 0.005 km2 (round-5 seed)
+        from affine import Affine
+        flw2 = pyflwdir.from_array(np.array(call["flw"], dtype=np.uint8).reshape(nr, nc), ftype="d8", transform=Affine(100.0, 0.0, 0.0, 0.0, -50.0, 0.0))
+        for unit, per in (("m2", 5000.0), ("ha", 0.5), ("km2", 0.005), ("M2", 5000.0)):
+            st, v2 = call_impl(flw2.ucat_area, outs, unit=unit)
+            if st != "ok":
+                bad.append(f"ucat_area(unit={unit}) -> {st}")
+                continue
+            got = [float(x) for x in np.asarray(v2[1]).ravel()]
+            for kk, x in enumerate(o):
+                exp_v = -9999.0 if x < 0 else exp_a[kk] * per
+                if abs(got[kk] - exp_v) > 1e-5 * max(1.0, abs(exp_v)):
+                    bad.append(f"ucat_area(unit={unit}) outlet {kk}: {got[kk]} expected {exp_v}")
+                    break
     hand = np.array([rng.randint(0, 3) for _ in range(n)], dtype=np.float32).reshape(nr, nc)
     depths = [1.0, 3.0]
     st, v = call_impl(flw.ucat_volume, outs, hand, depths=np.array(depths, dtype=np.float32))
